@@ -43,6 +43,49 @@ T = {
  "C19-A": ("lossy mode skips the slow-path fallback and binary() returns the invalid marker for exact halfway", "feature power-of-two or radix; radix 2/4/8/16/32; lossy; more than 64 bits of digits that are exactly halfway", ["C19"], ""),
  "C19-B": ("leading integer zeros consume the 19-digit budget when the mantissa is re-parsed after overflow", "default features; lossy; leading zeros and more than 19 significant digits", ["C19"], ""),
 }
+
+# round 2 (authors were told about the round-1 changes and asked for different mechanisms); worktree mutantA/B -> keys C/D
+T2 = {
+ "C01-C": ("A", "bigint u64_to_hi64_2 reports 'not truncated' when the top limb is already normalized", "default features; >19-digit decimal integer whose bit length is a multiple of 64, top 64 bits a tie pattern, next limb non-zero", ["C01"], ""),
+ "C01-D": ("B", "Bellerophon early exit widened to the i32 range; the following bias add overflows", "feature compact; effective decimal exponent in 2147483298..=2147483646 (1e2147483646 -> 0.0 instead of inf)", ["C01"], "missed at first: exponent digits were random; exp_digits now also draws exponents within +-400 of 0x1000, i16/u16/i32/u32/i64/u64 limits"),
+ "C02-C": ("A", "Dragonbox compute_nearest_shorter compares against the unadjusted left endpoint", "non-compact build; 26 f64 / 3 f32 exact powers of two", ["C02"], ""),
+ "C02-D": ("B", "Grisu mul truncates instead of rounding", "feature compact; f64 only; about 1 in 220000 random doubles", ["C02"], "missed at first (about 0.6M random doubles per configuration in the quick tier); the generated stream is now 3M per type and configuration"),
+ "C03-C": ("A", "128-bit decimal writer: 3-step branch taken for n > u64::MAX instead of n >= 10^20", "default features; u128/i128 with magnitude in 2^64..10^20-1 (leading zero written)", ["C03"], ""),
+ "C03-D": ("B", "radix writer multiplies the last two-digit index in u8", "power-of-two or radix without compact; u8 >= 128 / i8::MIN; radix >= 12", ["C03"], ""),
+ "C04-C": ("A", "char_to_valid_digit_const folds case with & 0x5f (bytes 0xC1..0xDA, 0xE1..0xFA become digits)", "radix above 10; an input with such a non-ASCII byte", ["C04"], ""),
+ "C04-D": ("B", "multi-digit gate keyed on feature radix instead of power-of-two", "feature power-of-two without radix; radix 16/32; no_multi_digit(false); 8 (4) bytes 0x30..0x3f in a chunk", ["C04"], ""),
+ "C05-C": ("A", "slow_binary digit loop ignores the first truncated digit when deciding 'all zero past the tie'", "power-of-two; radix 2/4/8/16/32; exact tie in the first u64_step digits and digit step+1 the only non-zero one", ["C05"], ""),
+ "C05-D": ("B", "byte_comp drops the 'input digits ran out before the midpoint digits' arm", "feature radix; odd radix; integer digits with a negative exponent that are a prefix of a midpoint expansion", ["C05"], ""),
+ "C06-C": ("A", "hex scale_sci_exp double rounding (divide by bits_per_base, then ceil-divide)", "power-of-two; mantissa radix 16 with exponent base 4; binary exponent = -1 mod 4", ["C06"], ""),
+ "C06-D": ("B", "overflow re-parse no longer scales the implicit exponent when the integer digits alone fill the mantissa", "power-of-two; hex-float layouts; positional output with long integer parts (>= 2^64)", ["C06"], ""),
+ "C07-C": ("A", "positional zero padding of very long integers only with max_significant_digits set", "feature radix; radix 3..21; f64 >= radix^232 with positive_exponent_break >= 232", ["C07"], ""),
+ "C07-D": ("B", "WriteFloatOptions::from_radix keeps 'e' for radix 15", "feature radix; radix exactly 15; options taken from from_radix(15)", ["C07"], "missed at first: every check set the exponent character itself; C06/C07 gained two option modes that use the library's from_radix presets for writing and parsing"),
+ "C08-C": ("A", "fast path multiplies the mantissa with wrapping_mul for exponents above 10^22", "default build; f64; few digits, exponent 23..37, digits * 10^(exp-22) wrapping to <= 2^53 (1.8447e41)", ["C08"], ""),
+ "C08-D": ("B", "scientific writer drops the no_exponent_without_fraction guard when trimming", "feature format; a no_exponent_without_fraction format; trim_floats; one-digit values in exponent notation", ["C08"], ""),
+ "C09-C": ("A", "algorithm_u128: assert -> debug_assert and the re-slice dropped (writes past a short buffer)", "power-of-two or radix without compact; u128/i128 above u64::MAX in a non-decimal radix; buffer shorter than the digits; release build", ["C09"], ""),
+ "C09-D": ("B", "inclusive range when zero-padding to min_significant_digits in positional decimal output", "non-compact; negative value below 1 at the negative exponent break with min_significant_digits >= 28 and a buffer of exactly the documented size", ["C09"], ""),
+ "C10-C": ("A", "binary(): the exact-halfway undecidable marker is returned in lossy mode too", "power-of-two; lossy; radix 2..32 powers of two; > 64 bits of digits exactly halfway; debug assertions", ["C10"], ""),
+ "C10-D": ("B", "large_add_from: saturating_sub -> plain subtraction", "default features; f64; > 19 digits near a halfway point, remaining exponent >= 135, digits a multiple of 2^384", ["C10", "C01"], "missed at first: no generator produced digit strings with whole zero limbs; gen::limb_aligned_text (midpoint / base^e rounded to a multiple of 2^(64 z)) was added to C10, C01 and C05"),
+ "C11-C": ("A", "complete integer parser no longer checks that it saw a digit", "feature format; separator-only inputs after the sign in formats with leading/trailing integer separators", ["C11"], ""),
+ "C11-D": ("B", "complete parser's parse_special returns early when the input is longer than the infinity string", "a NaN string longer than the infinity string, or specials spelled with separators beyond 8 bytes", ["C11"], "missed at first: C11 only used the default special strings as short tails; C11 gained the special-strings stream (case flips, 0-6 separators, tails) and an alternative option set whose NaN string is longer than the infinity string"),
+ "C12-C": ("A", "no_integer_leading_zeros misses all-zero input ('00')", "feature format; no_integer_leading_zeros; integers; input of two or more zeros", ["C12"], ""),
+ "C12-D": ("B", "complete float parser accepts empty input under required_integer_digits", "feature format; required_integer_digits with required_mantissa_digits off; '', '+', '-'", ["C12"], ""),
+ "C13-C": ("A", "skip_zeros returns the byte span instead of the number of zeros", "feature format; > 19 digits with separators between or before leading zeros", ["C13"], ""),
+ "C13-D": ("B", "parse_u64_digits uses next(), which only counts digits of separator-skipping components", "feature format; mixed formats; > 19 digits; no separator needed", ["C13"], ""),
+ "C14-C": ("A", "literal '1.0' written when 0.99.. rounds up to 1", "default features; decimal point other than '.'; max_significant_digits on 0.99..9x", ["C14"], ""),
+ "C14-D": ("B", "round_up increments the ASCII character (successor of '9' is ':')", "feature radix; generic radix above 10; round-up landing on digit 9", ["C14"], ""),
+ "C15-C": ("A", "SpecialDigitsIterator skips at most one separator per position", "feature format; special_digit_separator; two or more consecutive separators in a special", ["C15"], ""),
+ "C15-D": ("B", "needs_negative_sign excludes exactly negative infinity", "default features; writing -inf", ["C15"], ""),
+ "C16-C": ("A", "compact normalized_boundaries compares against the f64 hidden bit for every type", "feature compact; f32; 23 of the 254 powers of two", ["C16"], ""),
+ "C16-D": ("B", "power-of-two build: write_integer_signed forwards to the unsigned decimal routine", "power-of-two or radix without compact; negative i64/isize into a buffer of exactly FORMATTED_SIZE_DECIMAL", ["C16"], "caught because C16 writes into buffers of exactly the documented size (changed from 64/128-byte buffers just before this round)"),
+ "C17-C": ("A", "lexical::parse* wrappers return Err(Empty) for empty input before calling the core parser", "feature format; a digits-optional format; empty input; *_with_options entry points", ["C17"], "missed at first: no facade format made digits optional and the texts were never empty; the facade gained a digits-optional format and degenerate texts"),
+ "C17-D": ("B", "WriteIntegerOptions::buffer_size_const looks at the exponent radix", "power-of-two + format; mantissa radix 2/4/8 with exponent radix 10; integers longer than their decimal size", ["C17"], "missed at first for two reasons: no facade format had a small mantissa radix with decimal exponent digits, and the lexical-core reference call used the same (wrong) bound as the facade; the facade gained OCT_E10 / BIN_E10 and u64/u128/i32, and the reference writes into a generous buffer"),
+ "C18-C": ("A", "rebuild reads the exponent radix from the exponent-base field", "power-of-two or radix; exponent radix different from exponent base; going through rebuild", ["C18"], ""),
+ "C18-D": ("B", "exponent 'consecutive separator needs a position flag' check uses the whole exponent flag mask", "feature format; exponent_consecutive_digit_separator alone plus another exponent syntax flag", ["C18"], ""),
+ "C19-C": ("A", "lossy-only extended fast path chaining three rounded multiplications", "default features; lossy; short mantissa with decimal exponent +-45..66 (f64) / +-21..30 (f32); 0.1-0.4% of such inputs are 2 ulp off", ["C19"], ""),
+ "C19-D": ("B", "lossy Bellerophon loses the 'exponent -64 is zero' special case", "radix (non-decimal) or compact; lossy; value in (2^-1076, 2^-1075): smallest subnormal instead of zero", ["C19"], "missed at first: the oracle accepted either outcome for every value below the smallest subnormal; it is now strict on the zero side (the unchanged tree returns zero there in 48M lossy cases over two seeds) and lenient only in [MAX, MAX+ulp)"),
+}
+
 RUN = "tools/try_mutant.py verify: the patch applies to the repository, the workspace builds, the pinned suite (cargo test --workspace --no-fail-fast --offline) passes with it (394 passed, 0 failed), the demonstration exits non-zero with the patch and zero without; tools/try_mutant.py check: patch applied to /repo with `git -C /repo apply`, `python3 run.py check <ID> --tier quick` for the listed checks, /repo restored with `git -C /repo checkout -- .`"
 def main():
     res = json.load(open(sys.argv[1])) if len(sys.argv) > 1 else {}
@@ -51,7 +94,7 @@ def main():
         pid, which = key.split("-")
         wt = os.path.join(MUT, pid)
         dst = os.path.join("/verif/seeded", key)
-        if os.path.isdir(wt):
+        if os.path.isdir(wt) and not os.path.exists(os.path.join(dst, "patch.diff")):
             os.makedirs(dst, exist_ok=True)
             shutil.copy(os.path.join(wt, f"mutant{which}.diff"), os.path.join(dst, "patch.diff"))
             md = os.path.join(wt, f"mutant{which}.md")
@@ -63,11 +106,36 @@ def main():
                 if os.path.exists(d2):
                     shutil.rmtree(d2)
                 shutil.copytree(demo, d2, ignore=shutil.ignore_patterns("target", "Cargo.lock", "*.log"))
+        if os.path.exists(os.path.join(dst, "meta.json")):
+            rows.append((key, what, needs, caught, note))
+            continue
         meta = {"property": pid, "change": what, "needs_to_manifest": needs, "what_was_run": RUN,
                 "caught_by_quick_checks": caught, "check_results": res.get(key, {}), "strengthening": note,
                 "note": "demonstration/Cargo.toml refers to the library crates by relative path (../lexical-core ...): copy it into a checkout of the repository to run it"}
         json.dump(meta, open(os.path.join(dst, "meta.json"), "w"), indent=1)
         rows.append((key, what, needs, caught, note))
+    for key, (which, what, needs, caught, note) in sorted(T2.items()):
+        pid = key.split("-")[0]
+        wt = os.path.join(MUT, pid)
+        dst = os.path.join("/verif/seeded", key)
+        if os.path.isdir(wt) and os.path.exists(os.path.join(wt, f"mutant{which}.diff")):
+            os.makedirs(dst, exist_ok=True)
+            shutil.copy(os.path.join(wt, f"mutant{which}.diff"), os.path.join(dst, "patch.diff"))
+            md = os.path.join(wt, f"mutant{which}.md")
+            if os.path.exists(md):
+                shutil.copy(md, os.path.join(dst, "description.md"))
+            demo = os.path.join(wt, f"demo{which}")
+            if os.path.isdir(demo):
+                d2 = os.path.join(dst, "demonstration")
+                if os.path.exists(d2):
+                    shutil.rmtree(d2)
+                shutil.copytree(demo, d2, ignore=shutil.ignore_patterns("target", "Cargo.lock", "*.log"))
+            meta = {"property": pid, "change": what, "needs_to_manifest": needs, "what_was_run": RUN, "round": 2,
+                    "caught_by_quick_checks": caught, "strengthening": note,
+                    "note": "demonstration/Cargo.toml refers to the library crates by relative path (../lexical-core ...): copy it into a checkout of the repository to run it"}
+            json.dump(meta, open(os.path.join(dst, "meta.json"), "w"), indent=1)
+        rows.append((key, what, needs, caught, note))
+    rows.sort()
     with open("/verif/seeded/INDEX.md", "w") as f:
         f.write("# Seeded changes\n\nEach directory holds `patch.diff` (apply with `git -C /repo apply <file>`, undo with `git -C /repo checkout -- .`), `description.md` (the author's notes), `demonstration/` (a tiny cargo project that fails with the change and passes without) and `meta.json`.\nAll of them compile and pass the pinned test-suite. None is committed to the repository.\n\n| change | what | needs to manifest | quick checks that report it |\n|---|---|---|---|\n")
         for key, what, needs, caught, note in rows:
